@@ -392,9 +392,28 @@ func moduleGlobals(P *Program) []*ssa.Global {
 	return out
 }
 
+// isSyncType: a synchronisation primitive proper — something that orders accesses but holds no data of the
+// program's own. sync.Map and the sync/atomic types are not: they are containers, race-free but shared, and
+// what one goroutine (or one earlier call) put there is what the next one reads.
 func isSyncType(t types.Type) bool {
 	n, ok := types.Unalias(t).(*types.Named)
-	return ok && n.Obj().Pkg() != nil && n.Obj().Pkg().Path() == "sync"
+	if !ok || n.Obj().Pkg() == nil || n.Obj().Pkg().Path() != "sync" {
+		return false
+	}
+	switch n.Obj().Name() {
+	case "Mutex", "RWMutex", "Once", "WaitGroup", "Cond", "Pool":
+		return true
+	}
+	return false
+}
+
+// isSharedContainerType: sync.Map or a sync/atomic value.
+func isSharedContainerType(t types.Type) bool {
+	n, ok := types.Unalias(t).(*types.Named)
+	if !ok || n.Obj().Pkg() == nil {
+		return false
+	}
+	return n.Obj().Pkg().Path() == "sync/atomic" || n.Obj().Pkg().Path() == "sync" && n.Obj().Name() == "Map"
 }
 
 // globalWrites returns the instructions outside package initialisers that
@@ -426,6 +445,14 @@ func globalWrites(P *Program, fns []*ssa.Function) map[*ssa.Global][]ssa.Instruc
 							if g, ok := r.(*ssa.Global); ok {
 								out[g] = append(out[g], in)
 							}
+						}
+					}
+					// a method of a shared container (sync.Map, sync/atomic.*) applied to a package-level variable:
+					// Store, Swap, CompareAndSwap, Add, LoadOrStore, Delete ... all may write; so, for the purposes of
+					// "state shared between calls", does Load — it reads what another call wrote
+					for _, a := range x.Call.Args {
+						if g, ok := a.(*ssa.Global); ok && isSharedContainerType(g.Type().(*types.Pointer).Elem()) {
+							out[g] = append(out[g], in)
 						}
 					}
 				}
@@ -1440,5 +1467,150 @@ func good(k int) S { s, _ := get(k); s.T = "x"; return S{T: "w", U: []S{s}} }
 	o := c.ob(Discharged, "fixture/LK-SHARED", "-", fmt.Sprintf("positive fixture: writes found in %v (expected exactly swap)", hits), false)
 	if !(len(hits) == 1 && hits["swap"]) {
 		o.Verdict, o.VerdictS = Undecided, "undecided"
+	}
+}
+
+// ---------- LK-REENT
+
+// mayHeldLocks: like heldLocks, but the locks that are held on SOME path reaching each instruction (join is
+// union). A deferred unlock releases at function exit, so a lock taken under `defer Unlock` inside a branch
+// may be held on everything after the branch.
+func mayHeldLocks(fn *ssa.Function) map[ssa.Instruction]lockState {
+	in := map[*ssa.BasicBlock]lockState{}
+	out := map[*ssa.BasicBlock]lockState{}
+	res := map[ssa.Instruction]lockState{}
+	transfer := func(b *ssa.BasicBlock, s lockState, record bool) lockState {
+		s = s.clone()
+		for _, i := range b.Instrs {
+			if record {
+				res[i] = s.clone()
+			}
+			if g, op := lockOp(i); g != "" {
+				switch op {
+				case "Lock":
+					s[g] = 2
+				case "RLock":
+					if s[g] < 1 {
+						s[g] = 1
+					}
+				case "Unlock", "RUnlock":
+					delete(s, g)
+				}
+			}
+		}
+		return s
+	}
+	union := func(a, b lockState) lockState {
+		o := a.clone()
+		for k, v := range b {
+			if o[k] < v {
+				o[k] = v
+			}
+		}
+		return o
+	}
+	for iter, changed := 0, true; changed && iter < 100; iter++ {
+		changed = false
+		for _, b := range fn.Blocks {
+			s := lockState{}
+			for _, p := range b.Preds {
+				if o, ok := out[p]; ok {
+					s = union(s, o)
+				}
+			}
+			o := transfer(b, s, false)
+			if prev, ok := out[b]; !ok || !lockEq(prev, o) || !lockEq(in[b], s) {
+				changed = true
+			}
+			in[b], out[b] = s, o
+		}
+	}
+	for _, b := range fn.Blocks {
+		transfer(b, in[b], true)
+	}
+	return res
+}
+
+// ruleLKReent: a goroutine that holds one of the package-level locks must not come back for the same lock —
+// sync.Mutex is not re-entrant, and a second RLock of a sync.RWMutex blocks for good as soon as a writer
+// (a Register call on another goroutine) is waiting between the two — and must not run code it cannot see
+// (a registered builder, a callback) with the lock held, since that code may build a codec or register one.
+func ruleLKReent(c *Ctx) {
+	c.Rule("LK-REENT", "no package-level lock is held across a call that can take the same lock again, or across a call of code the module cannot see (a registered builder): construction, registration and parsing on different goroutines cannot wedge each other", 3)
+	P := c.P
+	// which functions take which package-level locks, directly or through module callees
+	acquires := map[*ssa.Function]map[string]bool{}
+	fns := P.ModuleFuncs()
+	for _, fn := range fns {
+		for _, b := range fn.Blocks {
+			for _, in := range b.Instrs {
+				if g, op := lockOp(in); strings.HasPrefix(g, "G:") && (op == "Lock" || op == "RLock") {
+					if acquires[fn] == nil {
+						acquires[fn] = map[string]bool{}
+					}
+					acquires[fn][g] = true
+				}
+			}
+		}
+	}
+	for changed := true; changed; {
+		changed = false
+		for _, fn := range fns {
+			for _, cs := range callsIn(fn) {
+				if cs.Static == nil {
+					continue
+				}
+				for g := range acquires[cs.Static] {
+					if acquires[fn] == nil {
+						acquires[fn] = map[string]bool{}
+					}
+					if !acquires[fn][g] {
+						acquires[fn][g] = true
+						changed = true
+					}
+				}
+			}
+		}
+	}
+	n := 0
+	for _, fn := range fns {
+		direct := false
+		for _, b := range fn.Blocks {
+			for _, in := range b.Instrs {
+				if g, _ := lockOp(in); strings.HasPrefix(g, "G:") {
+					direct = true
+				}
+			}
+		}
+		if !direct {
+			continue
+		}
+		n++
+		key := fnKey(fn) + "/nothing-re-enters"
+		held := mayHeldLocks(fn)
+		var bad []string
+		for _, cs := range callsIn(fn) {
+			hs := held[cs.Instr]
+			for g, lvl := range hs {
+				if !strings.HasPrefix(g, "G:") || lvl == 0 {
+					continue
+				}
+				name := strings.TrimPrefix(g, "G:")
+				switch {
+				case cs.Static != nil && P.isModuleFunc(cs.Static) && acquires[cs.Static][g]:
+					bad = append(bad, fmt.Sprintf("%s is (or may be) held at %s across the call of %s, which takes it again: with a writer waiting in between, neither ever returns", name, P.pos(cs.Instr.Pos()), cs.Static.Name()))
+				case cs.Static == nil && !cs.Common.IsInvoke():
+					if _, isB := cs.Common.Value.(*ssa.Builtin); !isB {
+						bad = append(bad, fmt.Sprintf("%s is (or may be) held at %s across a call of a function value (%s): code the module cannot see runs under the lock", name, P.pos(cs.Instr.Pos()), strings.TrimSpace(cs.Common.Value.String())))
+					}
+				case cs.Common.IsInvoke() && isCodecIface(P, cs.Common.Value.Type()):
+					bad = append(bad, fmt.Sprintf("%s is (or may be) held at %s across a call of a codec's method", name, P.pos(cs.Instr.Pos())))
+				}
+			}
+		}
+		c.Check(len(bad) == 0, key, P.pos(fn.Pos()), "every call made while a package-level lock is, or may be, held is to code that does not take that lock and is visible to the analysis", strings.Join(dedup(bad), "; "))
+	}
+	if n == 0 {
+		c.Unk("module/lock-users", "-", "no function takes a package-level lock")
 	}
 }
